@@ -118,6 +118,7 @@ def base_spellings():
     out.append(("a(?# comment )b", lits("ab"), "comment"))
     out.append(("(?i:a(?-i:b)c)", R.cat(cs(S("aA")), R.lit('b'), cs(S("cC"))), "opt-i"))
     out.append(("(?i:[a-c])", cs(S("abcABC")), "opt-i"))
+    out += [("(?i:%s)" % t, a, "opt-i-operator") for t, a in caseless_operator_forms()]
     out.append(("(?s:a.b)", R.cat(R.lit('a'), cs(ALL), R.lit('b')), "opt-s"))
     out.append(("(?s:[^a])", cs(ALL - S("a")), "opt-s"))
     # --- precedence
@@ -216,7 +217,27 @@ def caseless_spellings():
         ("[^a]", cs(ALL - S("aA")), "caseless-negated"),
         ("\\x41", cs(S("aA")), "caseless-escape"),
     ]
+    out += [(t, a, "caseless-operator") for t, a in caseless_operator_forms()]
     return out
+
+
+def caseless_operator_forms():
+    """Every operator applied to operands that begin with a cased letter (a caseless letter is an alternation of two
+    states inside the generator, so operators that copy machines see a different shape) - round-4 seed C01-r4m3."""
+    def ci(ch):
+        return cs(S(ch.lower() + ch.upper()))
+    a, b, c, q, x, y = (ci(ch) for ch in "abcqxy")
+    dg = cs(S(rng('0', '9')))
+    return [
+        ("b{3}", R.rep(b, 3, 3)), ("ab{3}", R.cat(a, R.rep(b, 3, 3))), ("ab{2,3}c", R.cat(a, R.rep(b, 2, 3), c)),
+        ("b{2,}", R.rep(b, 2, None)), ("(q[0-9]){2,}", R.rep(R.cat(q, dg), 2, None)), ("(x){2,3}y", R.cat(R.rep(x, 2, 3), y)),
+        ("(ab|c){2}", R.rep(R.alt(R.cat(a, b), c), 2, 2)), ("(a|b){1,2}c", R.cat(R.rep(R.alt(a, b), 1, 2), c)),
+        ("(ab){2}", R.rep(R.cat(a, b), 2, 2)), ("(ab?){2}", R.rep(R.cat(a, R.opt(b)), 2, 2)),
+        ("(a*b){2}", R.rep(R.cat(R.star(a), b), 2, 2)), ("(a+){2}b", R.cat(R.rep(R.plus(a), 2, 2), b)),
+        ("a{0,2}b", R.cat(R.rep(a, 0, 2), b)), ("b+c", R.cat(R.plus(b), c)), ("b*c", R.cat(R.star(b), c)), ("b?c", R.cat(R.opt(b), c)),
+        ("a|b", R.alt(a, b)), ("(a|bc)+", R.plus(R.alt(a, R.cat(b, c)))), ('"ab"{2}', R.rep(R.cat(a, b), 2, 2)),
+        ("[a-c]{2}", R.rep(cs(S("abcABC")), 2, 2)), ("a{2}{2}", R.rep(R.rep(a, 2, 2), 2, 2)),
+    ]
 
 
 def posix_repeat_spellings():
